@@ -269,21 +269,21 @@ Definition is_keyword (w : list N) : bool := existsb (bytes_eqb w) keywords.
 
 (* operators: length of the longest operator of the table that is a prefix of s (0 = none) *)
 Definition op_len (s : list N) : nat :=
-  match s with
-  | 58 :: 58 :: _ => 2                     (* :: *)
-  | 46 :: 46 :: 46 :: _ => 3               (* ... *)
-  | 45 :: 62 :: _ => 2                     (* -> *)
-  | 60 :: 61 :: _ => 2                     (* <= *)
-  | 62 :: 61 :: _ => 2                     (* >= *)
-  | 61 :: 61 :: _ => 2                     (* == *)
-  | 33 :: 61 :: _ => 2                     (* != *)
-  | 38 :: 38 :: _ => 2                     (* && *)
-  | 124 :: 124 :: _ => 2                   (* || *)
-  | c :: _ =>
-    if existsb (N.eqb c) [95;40;41;123;125;91;93;63;59;58;44;46;124;61;33;42;47;37;43;45;60;62]
-    then 1 else 0
-  | [] => 0
-  end%N.
+  (match s with
+   | 58 :: 58 :: _ => 2%nat                     (* :: *)
+   | 46 :: 46 :: 46 :: _ => 3%nat               (* ... *)
+   | 45 :: 62 :: _ => 2%nat                     (* -> *)
+   | 60 :: 61 :: _ => 2%nat                     (* <= *)
+   | 62 :: 61 :: _ => 2%nat                     (* >= *)
+   | 61 :: 61 :: _ => 2%nat                     (* == *)
+   | 33 :: 61 :: _ => 2%nat                     (* != *)
+   | 38 :: 38 :: _ => 2%nat                     (* && *)
+   | 124 :: 124 :: _ => 2%nat                   (* || *)
+   | c :: _ =>
+     if existsb (N.eqb c) [95;40;41;123;125;91;93;63;59;58;44;46;124;61;33;42;47;37;43;45;60;62]
+     then 1%nat else 0%nat
+   | [] => 0%nat
+   end)%N.
 
 (* Some (kind, n): the DFA accepts n >= 1 bytes; None: the DFA reports an error *)
 Definition lex_simple (s : list N) : option (kind * nat) :=
@@ -335,7 +335,7 @@ Fixpoint valid_escape (s : list N) (pending : bool) : bool :=
   | c :: s' =>
     if (c =? BACKSLASH)%N then valid_escape s' (negb pending)
     else if pending then
-      if existsb (N.eqb c) [116;118;48;98;102;110;114;34]%N     (* t v 0 b f n r " *)
+      if existsb (N.eqb c) [116;118;48;98;102;110;114;34]%N     (* t v 0 b f n r and the double quote *)
       then valid_escape s' false else false
     else valid_escape s' false
   end.
